@@ -233,10 +233,22 @@ func haGenCase(c *kit.Ctx, stream uint64, i int, profile string) *haCase {
 		cs.Nodes = []int{5, 7}[(i/2)%2]
 		cs.Stake = "equal"
 	}
+	s8 := profile == "progress" && i%8 == 5
+	if s8 {
+		// S8: directed prefix in which both a bottom and a value next-quorum exist in one period and the nodes
+		// are split between them (honest nodes, delays and losses only)
+		cs.Nodes = []int{5, 7}[(i/8)%2]
+		cs.Stake = "equal"
+	}
 	defer func() {
 		if s7 {
 			cs.Net, cs.Adv, cs.AdvPct, cs.AdvAccts = "S7", "none", 0, 0
 			cs.Crashes, cs.QCrashPm = nil, 0
+		}
+		if s8 {
+			cs.Net, cs.Adv, cs.AdvPct, cs.AdvAccts = "S8", "none", 0, 0
+			cs.Crashes, cs.QCrashPm, cs.FlushTail = nil, 0, false
+			cs.PrefixRnds, cs.PrefixCapS = 4, 400
 		}
 	}()
 	switch profile {
@@ -524,7 +536,7 @@ const (
 func TestVerifHAC05(t *testing.T) {
 	c := kit.Start(t, "C05", "cluster")
 	defer c.Finish()
-	c.Rule(fmt.Sprintf("asynchronous prefixes from the C01 families (partitions, drops, starved nodes, late payloads, crashes, equivocating adversary), then the synchrony point: faults stop, crashed nodes restart, in-flight messages are delivered or lost, ledgers catch up, the adversary goes silent; from there every message is delivered before any clock advances. Refuted if some node does not hold the next block within K=%d periods or T=%v of virtual time. distinct = distinct vectors of node (round.period.step) at the synchrony point", haC05K, haC05T))
+	c.Rule(fmt.Sprintf("asynchronous prefixes from the C01 families (partitions, drops, starved nodes, late payloads, crashes, equivocating adversary, S7 late payloads with split cert/next votes) plus the directed S8 family (in one period both a bottom and a value next-quorum form and the nodes are split between them, neither side a quorum, so that only the re-broadcast of the freshest bundle restores progress), then the synchrony point: faults stop, crashed nodes restart, in-flight messages are delivered or lost, ledgers catch up, the adversary goes silent; from there every message is delivered before any clock advances. Refuted if some node does not hold the next block within K=%d periods or T=%v of virtual time. distinct = distinct vectors of node (round.period.step) at the synchrony point", haC05K, haC05T))
 	c.Assume("bounded restatement of an eventuality; adversary silent after the synchrony point; all honest nodes online in the tail (honest stake >= 80%); K and T are >= 3x the worst values measured on the unchanged tree")
 	cases := haCasesC05(c)
 	n := len(cases)
@@ -567,6 +579,7 @@ func TestVerifHAC05(t *testing.T) {
 	c.Extra("virtual_time_to_commit", haDurPct(agg.tailVirt))
 	c.Require("schedules_with_tail_commit", int64(n/2))
 	c.Require("sync_points_with_nodes_at_different_positions", 5)
+	c.Require("s8_split_next_quorum_prefixes_built", 3)
 	agg.finish()
 }
 
